@@ -43,9 +43,12 @@ def spec_for(seed):
         force.update(objective_kind="nanhole", box=[[-5.0, 5.0], [-5.0, 5.0]], dim=2)     # NaN ties are settled by the SEEDED python generator
     elif c < 0.2:
         force["wrappers"] = "cache"
+    zero = rng.random() < 0.2
+    if zero:   # a falsy seed is still a seed: engines that receive the seed explicitly (CMA-ES, qmc samplers) below a sprouting root
+        force.update(height=2, engines=[rng.choice(["SEA", "DE", "LHS", "Sobol"]), rng.choice(["CMA", "CMAwarm", "LHS", "Sobol"])], gsc={"kind": "MetaepochLimit", "n": 5})
     spec = gen.gen_spec(seed, **force)
-    if rng.random() < 0.15:
-        spec["random_seed"] = 0          # a falsy seed is still a seed
+    if zero:
+        spec["random_seed"] = 0
     return spec
 
 
